@@ -1,3 +1,17 @@
 from props.common import run_all as run  # noqa: F401
 
-META = {"claimed": False, "reason": "check not built yet (work in progress; the technique applies, see DESIGN.md section 5)"}
+META = {'claimed': True,
+ 'title': 'HTTP client is memory-safe and terminates cleanly on any server byte stream',
+ 'level_text': 'proof: http/http.c (gotheaders, header-end search with hepos, status line, header split/trim, framing selection, chunk-size lines through a model of strtoumax on checked memory, body '
+               'accumulation against the limit) is modelled on top of the netbuf reader semantics, limits and literals regenerated from the C. For EVERY server byte stream, EVERY segmentation (incl. '
+               'EAGAIN rounds), EVERY ending (EOF, error, stall), EVERY body limit < 2^64, HEAD or not, and EVERY initial reader geometry: the model never Faults (no read/write outside an object) '
+               'and no assert fails (C08_http_never_faults), the script-derived fuel is never exhausted (C08_http_terminates), exactly one callback is made unless the connection stalls with the '
+               'request still pending (C08_http_one_callback*), and every response handed out has status in 100..599 and either a body of exactly bodylen <= limit bytes (NULL iff 0) or bodylen = '
+               '(size_t)(-1) with no buffer (C08_http_result_bounds, C08_cb_ok_meaning). Regression theorem for repaired defect F2 (the step without the NUL termination over-reads). Leak-freedom and '
+               "'none if cancelled' are outside the model: decided by the correspondence run (real http.c+netbuf+network+events, scripted kernel, ASan+LeakSanitizer per forked case, cancel at every "
+               "step) which also compares implementation and model on hostile/truncated/mutated streams and evaluates the bounds predicate on the implementation's callback data.",
+ 'level_note': 'Trusted: Coq kernel; hand-written model bound by differential execution; sscanf of the status line and strtoumax modelled per glibc 2.36 (DESIGN Appendix A, sampled on every run); '
+               "netbuf reader per C07; memory-safety is of the model's checked memory (the C's is observed under ASan); leaks and cancellation by LeakSanitizer only. Print Assumptions: closed under "
+               'the global context.',
+ 'trusted_base': ['Gallina model of sscanf("HTTP/%d.%d %d") and strtoumax per glibc 2.36', 'tools/extract/x_http.py', 'scripted kernel'],
+ 'assumptions': ['the reader starts in a state netbuf_read can be in (rdr_ok; the init state is shown to satisfy it)']}
